@@ -3,11 +3,25 @@
 import json, os, re, sys
 ROOT = os.path.dirname(os.path.dirname(os.path.abspath(__file__)))
 rows = []
+harmless = []
 tally = {}
 for sid in sorted(os.listdir(os.path.join(ROOT, 'seeded'))):
     m = json.load(open(os.path.join(ROOT, 'seeded', sid, 'meta.json')))
     prop = m['breaks_property']
     r = m.get('check_results', {}).get(prop)
+    if m.get('harmless'):
+        if not r:
+            v = 'not evaluated'
+        elif r['exit'] == 1:
+            v = 'FALSE ALARM'
+        elif any('proof undecided' in l for l in r['lines']):
+            v = 'no alarm (exit 0; proof undecided, stand-in clean)'
+        elif r['exit'] == 0:
+            v = 'no alarm (exit 0; proof holds)'
+        else:
+            v = 'exit %d (undecided, nothing explored)' % r['exit']
+        harmless.append('| %s | %s | %s |' % (sid, m.get('summary', '')[:150].replace('|', '/'), v))
+        continue
     if not r:
         verdict, how = 'not evaluated', ''
     else:
@@ -37,6 +51,8 @@ for sid in sorted(os.listdir(os.path.join(ROOT, 'seeded'))):
     tally[verdict] = tally.get(verdict, 0) + 1
     rows.append('| %s | %s | %s | %s | %s |' % (sid, m.get('summary', '')[:120].replace('|', '/'), m.get('needs', '')[:90].replace('|', '/'), verdict, how.replace('|', '/')))
 table = '| id | change | needs | result of `./check %s` | deciding obligation / reason |\n|---|---|---|---|---|\n' % '<property>' + '\n'.join(rows)
+if harmless:
+    table += '\n\nHarmless (behaviour-preserving) changes written by the same sub-agents - the checks must not raise an alarm:\n\n| id | change | result |\n|---|---|---|\n' + '\n'.join(harmless)
 table += '\n\nTally: ' + ', '.join('%s %d' % kv for kv in sorted(tally.items())) + ' (of %d).' % len(rows)
 p = os.path.join(ROOT, 'DESIGN.md')
 s = open(p).read()
